@@ -23,6 +23,7 @@ cloned so that aliasing between arrays survives (views, shared buffers).  X[i] =
 import copy
 import json
 import multiprocessing as mp
+import os
 import random
 import warnings
 import zlib
@@ -694,6 +695,11 @@ def setitem_chunk(args):
 def run(run, replay=None):
     global TABS, LTS, QUERIES
     quick = run.tier == "quick"
+    if os.environ.get("VERIF_C11_PART") == "suite":
+        # only the validation of the histories of the repository's own tests (used to show what that part catches alone)
+        from . import c11_suite
+        c11_suite.run(run)
+        return
     if replay:
         try:
             rp = json.load(open(replay))
@@ -831,3 +837,8 @@ def run(run, replay=None):
     traces, meta, errors = comp_trace.record(TABS, random.Random(run.seed + 11), DERIVED_CLASSES, (2, 3), nhist, 10,
                                              query_fn=run_query, queries=QUERIES)
     comp_trace.validate_and_report(run, traces, meta, errors, clause="trace")
+
+    # code -> spec on the repository's OWN tests: the suite runs under an external tracing plug-in, every history it
+    # exercises on ProjectiveObject-family objects is validated by TLC against CompositeTrace.tla
+    from . import c11_suite
+    c11_suite.run(run)
